@@ -135,7 +135,7 @@ func verif_C14_trip() {
 		case 3:
 			ro.Notify = []DSNNotify{DSNNotifyDelayed, DSNNotifyFailure, DSNNotifySuccess}
 		}
-		switch verifChoice(3) {
+		switch verifChoice(5) {
 		case 1:
 			assume(r <= 0x7e)
 			ro.OriginalRecipientType = DSNAddressTypeRFC822
@@ -143,6 +143,16 @@ func verif_C14_trip() {
 		case 2:
 			ro.OriginalRecipientType = DSNAddressTypeUTF8
 			ro.OriginalRecipient = "o" + string(r) + "\\@h"
+		case 3, 4:
+			// a '+' followed by two ARBITRARY printable octets (what would be
+			// a hexchar if the value were decoded once too often)
+			d1, d2 := nondetByte(), nondetByte()
+			assume(d1 > ' ' && d1 < 0x7f && d2 > ' ' && d2 < 0x7f)
+			ro.OriginalRecipientType = DSNAddressTypeUTF8
+			if verifChoice(2) == 1 {
+				ro.OriginalRecipientType = DSNAddressTypeRFC822
+			}
+			ro.OriginalRecipient = "o+" + string([]byte{d1, d2}) + "@h"
 		}
 		// RRVS: a concrete corpus of timestamps (to the second)
 		switch verifChoice(verifBound(2, 3)) {
